@@ -8,7 +8,7 @@ cd $WT || exit 2
 git checkout -q -- . ; git clean -fdq tests src codegen >/dev/null 2>&1
 git checkout -q --detach $(git -C /repo rev-parse HEAD) || exit 2
 echo "base: $(git rev-parse --short HEAD)" >> $LOG
-copy_demo() { if [ -d $D/demo/tests ]; then cp -r $D/demo/tests/. tests/; else cp $D/demo/*.rs tests/; fi; }
+copy_demo() { if [ -d $D/demo/tests ]; then cp -r $D/demo/tests/. tests/; else cp $D/demo/*.rs tests/; fi; if [ -d $D/demo/features ]; then cp -r $D/demo/features/. tests/features/; fi; }
 git apply $D/patch.diff || { echo "PATCH FAILED" >> $LOG; exit 2; }
 copy_demo
 RUST_BACKTRACE=0 cargo test --offline ${FEATURES:+--features $FEATURES} --test $T -- --test-threads=1 > /tmp/confirm_$1_with.log 2>&1; W=$?
